@@ -2129,6 +2129,15 @@ class TestGraph(object):
             unexplored_nodes = [
                 node for node in self.nodes if node.is_flat() and not node.is_unrolled()
             ]
+            # nodes unrolled only by other workers will still add children for the current worker
+            unrolling_nodes = [
+                node
+                for node in self.nodes
+                if node.is_flat()
+                and node not in unexplored_nodes
+                and not node.is_unrolled(worker)
+                and node.should_parse(worker)
+            ]
 
             if (
                 next.is_flat()
@@ -2224,8 +2233,9 @@ class TestGraph(object):
                 if next.is_cleanup_ready(worker):
                     self.report_progress()
 
-                    if not next.is_flat() and len(unexplored_nodes) > 0:
+                    if not next.is_flat() and len(unexplored_nodes + unrolling_nodes) > 0:
                         # postpone cleaning up current node since it might have newly added children
+                        unexplored_nodes += unrolling_nodes
                         logging.info(
                             f"Worker {worker.id} postponing the cleanup for {next} "
                             f"due to {len(unexplored_nodes)} unexplored nodes: {unexplored_nodes[:3]}..."
